@@ -136,6 +136,19 @@ pub struct Scenario {
     /// different states of the same frame often share a checksum
     #[serde(default)]
     pub weak_checksum: bool,
+    /// how peers with `use_wait` call the lockstep wait helper and how the simulator accounts for the time they
+    /// spend in it. 0: the three entry points in rotation, the wait of one peer delays everybody after it (one
+    /// global clock). 1: always `advance_frame_with_wait()`; 2: the rotation; in both the peers of a round wait *in
+    /// parallel*: every peer's call starts at the round's instant T, the clock is put back to T after it, and the
+    /// round ends at T + the longest wait (exact for link latencies >= the wait timeout: nothing sent in a round
+    /// can arrive during a wait of the same round)
+    #[serde(default)]
+    pub wait_mode: u8,
+    /// wait_mode != 0 only: peer i's call of a round starts `phase_ms[i]` milliseconds after the round's instant
+    /// (peers whose game loops are out of phase); missing entries are 0. wait_mode 3 = as 1, but always
+    /// `advance_frame_with_wait_timeout(3 ms)`
+    #[serde(default)]
+    pub phase_ms: Vec<u8>,
 }
 
 impl Scenario {
@@ -180,6 +193,8 @@ impl Scenario {
             resubmit_varies: false,
             double_submit: false,
             weak_checksum: false,
+            wait_mode: 0,
+            phase_ms: vec![],
         }
     }
 }
